@@ -183,6 +183,7 @@ class Item:
     last: str = None   # last path segment (fn name / closure chain)
     text_hash: str = None
     lineno: int = 0
+    key: tuple = None
 
 
 # ----------------------------------------------------------------------------- item splitting
